@@ -218,7 +218,7 @@ func (g *G) TokExpr(d int, noRound bool) string {
 	case 0:
 		return g.Pick("0", "1", "2", "2.5", "10", "0.5", "3")
 	case 1:
-		return "'" + g.Pick("", "a", "10", "x", "(", "a*", "[", "$1", "b", " ", "é", "aé", "中", "éé中", "ab", "abc", "a\u00a0", "x\u3000", "b\v", " a\f") + "'"
+		return "'" + g.Pick("", "a", "10", "x", "(", "a*", "[", "$1", "b", " ", "é", "aé", "中", "éé中", "ab", "abc", "a\u00a0", "x\u3000", "b\v", " a\f", "(a)", "(.)(.)", "$", "x$", "$1$", "$2", "^", "(a|b)*", "\\", "$0", "${1}") + "'"
 	case 2, 3:
 		return g.tokPath(d, noRound)
 	case 4:
@@ -336,6 +336,10 @@ func (g *G) ReplTemplate() string {
 		default:
 			sb.WriteString(g.Pick("$1", "$2") + g.Pick("", "0", "1", "a"))
 		}
+	}
+	if g.Chance(0.15) {
+		// a dollar sign that is not a group reference: at the very end, doubled, before a letter, $0, braces
+		sb.WriteString(g.Pick("$", "$$", "x$", "$1$", "$0", "${1}", "$a", "$ ", "$-", "\\", "\\1", "$1\\"))
 	}
 	return sb.String()
 }
